@@ -241,6 +241,21 @@ impl Column {
         bits
     }
 
+    /// Returns true if the file format can represent this column exactly: the
+    /// type word has eight bits for a string column's width, and the list of
+    /// enumerated values is stored as one semicolon-separated string.
+    pub(crate) fn is_storable(&self) -> bool {
+        if let ColumnType::Str(max_len) = self.coltype {
+            if max_len > COL_FIELD_SIZE_MASK as usize {
+                return false;
+            }
+        }
+        !self
+            .enum_values
+            .iter()
+            .any(|value| value.is_empty() || value.contains(';'))
+    }
+
     /// Returns true if the given string is a valid column name.
     pub(crate) fn is_valid_name(name: &str) -> bool {
         Category::Identifier.validate(name)
